@@ -312,6 +312,174 @@ func (w *walker) stmt(s ast.Stmt) {
 	}
 }
 
+// ---------- access table (C12) ----------
+// For every function: the syntactic reads / writes of watched struct fields, with the mutexes that
+// are syntactically held at that point (X.Lock() ... X.Unlock(), or Lock + deferred Unlock).
+
+var watched = map[string]bool{"auditInfo": true, "Tags": true, "Upstream": true, "Params": true, "OutFiles": true,
+	"RemotePorts": true, "ready": true, "procs": true, "driver": true, "doStream": true, "SubStream": true, "path": true, "buffer": true}
+
+type access struct {
+	field string
+	recv  string
+	write bool
+	locks []string
+}
+
+type accWalker struct {
+	held  []string
+	defer_ []string
+	out   []access
+}
+
+func (a *accWalker) holdCopy() []string {
+	c := append([]string{}, a.held...)
+	sort.Strings(c)
+	return c
+}
+
+func (a *accWalker) rec(e ast.Expr, write bool) {
+	switch x := e.(type) {
+	case *ast.SelectorExpr:
+		if watched[x.Sel.Name] {
+			a.out = append(a.out, access{x.Sel.Name, pr(x.X), write, a.holdCopy()})
+		}
+		a.rec(x.X, false)
+	case *ast.IndexExpr:
+		a.rec(x.X, write) // m[k] = v writes the map held in the field
+		a.rec(x.Index, false)
+	case *ast.CallExpr:
+		// method calls that read / write through accessor methods are separate functions; here only
+		// lock tracking and builtin delete
+		if sel, ok := x.Fun.(*ast.SelectorExpr); ok {
+			if sel.Sel.Name == "Lock" {
+				a.held = append(a.held, pr(sel.X))
+			} else if sel.Sel.Name == "Unlock" {
+				name := pr(sel.X)
+				for i := len(a.held) - 1; i >= 0; i-- {
+					if a.held[i] == name {
+						a.held = append(a.held[:i], a.held[i+1:]...)
+						break
+					}
+				}
+			}
+			a.rec(sel.X, false)
+		}
+		if id, ok := x.Fun.(*ast.Ident); ok && id.Name == "delete" && len(x.Args) == 2 {
+			a.rec(x.Args[0], true)
+			a.rec(x.Args[1], false)
+			return
+		}
+		for _, arg := range x.Args {
+			a.rec(arg, false)
+		}
+	case *ast.UnaryExpr:
+		a.rec(x.X, false)
+	case *ast.BinaryExpr:
+		a.rec(x.X, false)
+		a.rec(x.Y, false)
+	case *ast.ParenExpr:
+		a.rec(x.X, write)
+	case *ast.StarExpr:
+		a.rec(x.X, write)
+	case *ast.KeyValueExpr:
+		a.rec(x.Value, false)
+	case *ast.CompositeLit:
+		for _, el := range x.Elts {
+			a.rec(el, false)
+		}
+	case *ast.FuncLit:
+		// runs later, possibly on another goroutine: locks of the enclosing function do not cover it
+		inner := &accWalker{}
+		inner.block(x.Body)
+		a.out = append(a.out, inner.out...)
+	}
+}
+
+func (a *accWalker) block(b *ast.BlockStmt) {
+	if b == nil {
+		return
+	}
+	for _, st := range b.List {
+		a.stmt(st)
+	}
+}
+
+func (a *accWalker) stmt(st ast.Stmt) {
+	switch x := st.(type) {
+	case *ast.ExprStmt:
+		a.rec(x.X, false)
+	case *ast.AssignStmt:
+		for _, r := range x.Rhs {
+			a.rec(r, false)
+		}
+		for _, l := range x.Lhs {
+			a.rec(l, true)
+		}
+	case *ast.IncDecStmt:
+		a.rec(x.X, true)
+	case *ast.SendStmt:
+		a.rec(x.Chan, false)
+		a.rec(x.Value, false)
+	case *ast.DeferStmt:
+		if sel, ok := x.Call.Fun.(*ast.SelectorExpr); ok && sel.Sel.Name == "Unlock" {
+			return // the lock taken next (or before) stays held to the end of the function
+		}
+		a.rec(x.Call, false)
+	case *ast.GoStmt:
+		inner := &accWalker{}
+		inner.rec(x.Call, false)
+		a.out = append(a.out, inner.out...)
+	case *ast.ReturnStmt:
+		for _, r := range x.Results {
+			a.rec(r, false)
+		}
+	case *ast.BlockStmt:
+		a.block(x)
+	case *ast.IfStmt:
+		a.stmt(x.Init)
+		a.rec(x.Cond, false)
+		a.block(x.Body)
+		a.stmt(x.Else)
+	case *ast.ForStmt:
+		a.stmt(x.Init)
+		a.rec(x.Cond, false)
+		a.block(x.Body)
+		a.stmt(x.Post)
+	case *ast.RangeStmt:
+		a.rec(x.X, false)
+		a.block(x.Body)
+	case *ast.SelectStmt:
+		for _, c := range x.Body.List {
+			cc := c.(*ast.CommClause)
+			a.stmt(cc.Comm)
+			for _, s2 := range cc.Body {
+				a.stmt(s2)
+			}
+		}
+	case *ast.SwitchStmt:
+		a.stmt(x.Init)
+		a.rec(x.Tag, false)
+		for _, c := range x.Body.List {
+			for _, s2 := range c.(*ast.CaseClause).Body {
+				a.stmt(s2)
+			}
+		}
+	case *ast.DeclStmt:
+		if gd, ok := x.Decl.(*ast.GenDecl); ok {
+			for _, sp := range gd.Specs {
+				if vs, ok := sp.(*ast.ValueSpec); ok {
+					for _, v := range vs.Values {
+						a.rec(v, false)
+					}
+				}
+			}
+		}
+	case *ast.LabeledStmt:
+		a.stmt(x.Stmt)
+	}
+}
+
 func leanStr(s string) string {
 	var b strings.Builder
 	b.WriteByte('"')
@@ -377,7 +545,9 @@ func main() {
 	}
 	pkgs := []pkgSpec{{".", "Scipipe"}, {"components", "Components"}, {"cmd/scipipe", "Cmd"}}
 
-	var skel, consts bytes.Buffer
+	var skel, consts, acc bytes.Buffer
+	acc.WriteString("-- GENERATED by /verif/extract/goextract from /repo's working tree. Do not edit.\nimport SciVerif.Tie.Atom\nnamespace SciVerif.Generated.Access\nopen SciVerif.Tie\n\ndef table : List Acc := [\n")
+	firstAcc := true
 	skel.WriteString("-- GENERATED by /verif/extract/goextract from /repo's working tree. Do not edit.\nimport SciVerif.Tie.Atom\nnamespace SciVerif.Generated\nopen SciVerif.Tie\n\n")
 	consts.WriteString("-- GENERATED by /verif/extract/goextract from /repo's working tree. Do not edit.\nnamespace SciVerif.Generated.Consts\n\n")
 	allFuncs := []string{}
@@ -417,6 +587,16 @@ func main() {
 						}
 						return true
 					})
+					aw := &accWalker{}
+					aw.block(x.Body)
+					for _, ac := range aw.out {
+						sep := ","
+						if firstAcc {
+							sep = " "
+							firstAcc = false
+						}
+						fmt.Fprintf(&acc, "  %s⟨%s, %s, %s, %v, %s⟩\n", sep, leanStr(p.name+"."+key), leanStr(ac.field), leanStr(ac.recv), ac.write, leanStrList(ac.locks))
+					}
 					fmt.Fprintf(&skel, "def %s : List Atom := [\n", id)
 					for i, a := range w.out {
 						sep := ","
@@ -488,6 +668,10 @@ func main() {
 	skel.WriteString("end SciVerif.Generated\n")
 	consts.WriteString("end SciVerif.Generated.Consts\n")
 	if err := os.WriteFile(filepath.Join(outdir, "Skel.lean"), skel.Bytes(), 0644); err != nil {
+		panic(err)
+	}
+	acc.WriteString("]\n\nend SciVerif.Generated.Access\n")
+	if err := os.WriteFile(filepath.Join(outdir, "Access.lean"), acc.Bytes(), 0644); err != nil {
 		panic(err)
 	}
 	if err := os.WriteFile(filepath.Join(outdir, "Consts.lean"), consts.Bytes(), 0644); err != nil {
